@@ -16,6 +16,11 @@ ASSUME_SEM = [
 ]
 
 
+# (quick, thorough) number of generator rounds per property
+ROUNDS = {"C01": (3, 12), "C02": (3, 8), "C03": (3, 12), "C04": (3, 12), "C08": (2, 8), "C10": (3, 12), "C12": (3, 12),
+          "C13": (3, 8), "C14": (3, 10), "C15": (2, 4), "C18": (3, 12), "C20": (3, 12)}
+
+
 def known_match(pid, case, kinds_failed):
     """Return the known finding (status 'known') this failing case is an instance of, if any."""
     for k in common.load_known():
@@ -41,7 +46,18 @@ def run_sem(pid, tier, seed, replay, gen_fn=None, extra_cov=None):
         nets, cases, judged = doc["nets"], doc["cases"], doc["judged"]
     else:
         gen_fn = gen_fn or semprops.GENERATORS[pid]
-        nets, cases, judged = gen_fn(rng, common.probe_networks, tier)
+        # several independently seeded rounds of the property's generator
+        rounds = ROUNDS.get(pid, (2, 8))[1 if tier == "thorough" else 0]
+        nets, cases, judged = [], [], []
+        for rd in range(rounds):
+            n_, c_, judged = gen_fn(random.Random(rng.randrange(1 << 60)), common.probe_networks, tier)
+            for n in n_:
+                n["id"] = "r%d_%s" % (rd, n["id"])
+            for c in c_:
+                c["id"] = "r%d_%s" % (rd, c["id"])
+                c["net"] = "r%d_%s" % (rd, c["net"])
+            nets += n_
+            cases += c_
     used = {c["net"] for c in cases}
     nets = [n for n in nets if n["id"] in used]
     jobs = os.path.join(d, "jobs.json")
